@@ -118,7 +118,7 @@ def run(ctx):
     for q in quals:
         ctx.functions.add(q)
     ctx.floor('V2 functions reachable from main_loop', len(quals), 120)
-    ctx.floor('V2 while loops reachable from main_loop', sum(1 for r in results if r['kind'].startswith('while')), 8)
+    ctx.floor('V2 loops reachable from main_loop', len(results), 8)
     for r in results:
         fi, l = r['fi'], r['loop']
         desc = ('while ' + src(l.test)) if isinstance(l, ast.While) else 'for %s in %s' % (src(l.target), src(l.iter))
